@@ -13,6 +13,7 @@ type vReader struct {
 	pos   int
 	reads int
 	fail  bool // a read error instead of EOF at the end
+	whole bool // deliver as much as fits per read (fragmentation is not the subject)
 }
 
 var errVRead = errors.New("vreader: injected error")
@@ -29,9 +30,17 @@ func (r *vReader) Read(p []byte) (int, error) {
 	if len(p) == 0 {
 		return 0, nil
 	}
-	n := vInt("chunk", 1, 1<<30)
-	vAssume(n <= rem)
-	vAssume(n <= len(p))
+	var n int
+	if r.whole { // no fragmentation: as much as fits
+		n = rem
+		if len(p) < n {
+			n = len(p)
+		}
+	} else {
+		n = vInt("chunk", 1, 1<<30)
+		vAssume(n <= rem)
+		vAssume(n <= len(p))
+	}
 	copy(p, r.data[r.pos:r.pos+n])
 	r.pos += n
 	return n, nil
@@ -151,7 +160,7 @@ func VerifC03Limit() {
 	if len(enc) <= limit {
 		vAssume(len(enc) <= 16)
 	}
-	r := &vReader{data: enc}
+	r := &vReader{data: enc, whole: true}
 	dec := NewDecoder(r)
 	dec.SetReadLimit(int64(limit))
 	pkt, err := dec.Read()
